@@ -418,15 +418,18 @@ class TypeQualifier(TypeQualifierBase, metaclass=_TypeQualifier):
     @_intrinsic
     def __iter__(self):
         if len(self._ref_spec) != 0 and isinstance(self._ref_spec[-1], Slice):
-            offset = self._ref_spec[-1].stop
+            # same offsets as in __getitem__ (a slice of a slice
+            # carries the offsets of the enclosing slices)
+            last_ref = self._ref_spec[-1]
+            base_offset = [*last_ref.base_offset, last_ref.stop]
             prev = self._ref_spec[:-1]
         else:
-            offset = 0
+            base_offset = []
             prev = self._ref_spec
 
         for nr, elem in enumerate(self._value):
             yield self.qualifier[type(elem)](
-                elem, _ref_spec=[*prev, Offset(offset + nr, [])], _root=self._root
+                elem, _ref_spec=[*prev, Offset(nr, base_offset)], _root=self._root
             )
 
     @_intrinsic
